@@ -47,6 +47,10 @@ def start_graphs(tier, rng):
         # sparse graphs over a 1-2 entry menu: many node pairs that satisfy the fusion preconditions of merge_edges
         yield 'fuse', dict(graph=hg.rand_layered_graph(rng, int(rng.integers(2, 4)), wmax + 1, menu_size=int(rng.integers(1, 3)),
                                                         charges=(0,) if r % 2 else (0, 1), pdens=0.2))
+    for r in range(150 if quick else 2000):
+        # nearly equal coefficients (relative difference 1e-9, absolute 1e-12): equality of operator sums must be exact
+        yield 'near', dict(graph=hg.rand_layered_graph(rng, int(rng.integers(2, 4)), wmax + 1, menu_size=int(rng.integers(2, 4)),
+                                                        charges=(0,) if r % 2 else (0, 1), pdens=(0.2, 0.5)[r % 2], near=r))
     for r in range(60 if quick else 1000):
         yield 'dang', dict(graph=hg.rand_layered_graph(rng, int(rng.integers(2, 4)), wmax, dangling=True))
     for r in range(120 if quick else 2000):
